@@ -197,6 +197,19 @@ AUTO_POOL = [None, None, None,
 small_words = st.sampled_from(["on", "at", "the", "of", "de", "le", "в", "г.", "a", "t", "am", "u"])
 
 
+DST_ZONES = ["America/New_York", "Europe/Paris", "Australia/Lord_Howe", "America/Sao_Paulo", "Asia/Tehran", "Pacific/Apia", "Europe/London"]
+
+
+@st.composite
+def dst_adjacent(draw):
+    """a reference time within a day of a DST transition of a zone, and that zone"""
+    import pytz
+    z = draw(st.sampled_from(DST_ZONES))
+    tt = [t for t in getattr(pytz.timezone(z), "_utc_transition_times", []) if 1971 <= t.year <= 2036]
+    t = tt[draw(st.integers(0, len(tt) - 1))] + dt.timedelta(hours=draw(st.integers(-30, 30)), minutes=draw(st.sampled_from([0, 30])))
+    return [t.year, t.month, t.day, t.hour, t.minute, 0, 0], z
+
+
 @st.composite
 def near_end_datetimes(draw):
     k = draw(st.integers(0, 5))
@@ -362,6 +375,34 @@ def cases(draw):
     langkw = draw(lang_kwargs())
     settings = draw(settings_dicts(autodetect=not (langkw.get("languages") or langkw.get("locales"))))
     c = {"s": s, "sclass": sclass, "settings": settings, "langkw": langkw, "formats": draw(format_lists())}
+    special = draw(st.integers(0, 19))
+    if special == 0:
+        # a clock time alone, around a DST transition of the TIMEZONE (ambiguous and skipped local times)
+        base, zone = draw(dst_adjacent())
+        c["s"] = draw(st.sampled_from(["%02d:%02d" % (h, m) for h in (0, 1, 2, 3, 23) for m in (0, 30, 59)] + ["1:30 am", "2 am", "noon"]))
+        c["sclass"] = "digits"
+        c["langkw"] = {"languages": ["en"]}
+        c["settings"] = {"TIMEZONE": zone, "RELATIVE_BASE": {"t": base, "tz": None},
+                         "PREFER_DATES_FROM": draw(st.sampled_from(["past", "future", "current_period"]))}
+        if draw(st.booleans()):
+            c["settings"]["TO_TIMEZONE"] = draw(st.sampled_from(TZ_NAMES[:12]))
+        c["formats"] = None
+    elif special == 1:
+        # a string that really matches the given format, at the ends of the datetime range, with timezone settings
+        from checks import c14
+        fmt = draw(st.sampled_from(["%Y-%m-%d", "%d/%m/%Y %H:%M", "%Y%m%d", "%B %d, %Y", "%Y-%m-%d %H:%M:%S.%f", "%Y", "%m/%Y", "%d %b %Y %I:%M %p"]))
+        t = draw(st.sampled_from([[1, 1, 1, 0, 0, 0, 0], [1, 1, 2, 12, 30, 0, 0], [9999, 12, 31, 23, 59, 59, 999999], [9999, 12, 30, 0, 0, 0, 0],
+                                  [100, 3, 1, 1, 1, 1, 0], [2020, 2, 29, 23, 59, 0, 0]]))
+        c["s"], c["sclass"], c["formats"] = c14.render(fmt, t), "corpus", [fmt]
+        c["langkw"] = {"languages": ["en"]}
+        st_ = {}
+        if draw(st.booleans()):
+            st_["TIMEZONE"] = draw(st.sampled_from(TZ_NAMES))
+        if draw(st.booleans()):
+            st_["TO_TIMEZONE"] = draw(st.sampled_from([z for z in TZ_NAMES if z != "local"]))
+        if draw(st.booleans()):
+            st_["RETURN_AS_TIMEZONE_AWARE"] = draw(st.booleans())
+        c["settings"] = st_ or None
     if draw(st.integers(0, 99)) < 15:
         inv = draw(st.sampled_from(INVALID))
         c["invalid"] = inv
